@@ -488,7 +488,9 @@ def decodeDoc (X : Ext) (root : DeRoot) (s : Sch) (evs : List Ev) : Except DeErr
             | .error e => .error e
             | .ok r3 => match expectEof r3 with | .error e => .error e | .ok _ => .ok v
   | .location tag =>
-    -- hand-written: top-level `for_each_element`, `LocationConstraint` at most once, the empty string is `None`
+    -- hand-written: top-level `for_each_element`; `if location_constraint.is_some() { DuplicateField }`, then
+    -- `if !val.is_empty() { location_constraint = Some(val) }` — an empty constraint leaves the variable `None`,
+    -- so it may be followed by another `LocationConstraint` element
     match forEach (fun name evs (acc : FVal) =>
             if name = tag then
               if acc.isAbsent then
@@ -497,17 +499,14 @@ def decodeDoc (X : Ext) (root : DeRoot) (s : Sch) (evs : List Ev) : Except DeErr
                 | .ok (raw, r) =>
                   match decodeStr raw with
                   | .error e => .error e
-                  | .ok b => .ok (.one (.str b), r)
+                  | .ok b => .ok (if b = [] then .absent else .one (.str b), r)
               else .error .duplicateField
             else .error .unexpectedTagName) (evs.length + 1) evs .absent with
     | .error e => .error e
     | .ok (acc, r) =>
       match expectEof r with
       | .error e => .error e
-      | .ok _ =>
-        match acc with
-        | .one (.str []) => .ok (.struct [.absent])
-        | fv => .ok (.struct [fv])
+      | .ok _ => .ok (.struct [acc])
 
 /-! ## writer (`quick_xml::Writer::write_event`, no indentation) -/
 
